@@ -17,9 +17,13 @@
           submitting thread: _dispatch_async_and_wait_recurse acquires the upper levels on the caller's thread, and
           when a lower level is busy the context is pushed there and run by THAT level's drainer through
           _dispatch_async_and_wait_invoke while the caller, still owning the upper levels, is blocked on its event;
-     (L2) every successful _dispatch_queue_drain_try_lock of a lane whose target is a serial lane is performed by
+     (L2) every successful _dispatch_queue_drain_try_lock of a lane whose target is a serial lane or a workloop is performed by
           the thread that owns the target's drain lock ("drained only from the context of its target").
-   Workloops (not lanes) and concurrent levels (no owner while readers run) are skipped; a word touched through a
+   A WORKLOOP at the bottom is a serial level like any other (dq_width = 1; its Reset marker carries w = 1, lane = FALSE):
+   its drain lock is taken by the root worker running _dispatch_workloop_invoke (the lanes above are drained nested in
+   it), by _dispatch_sync_recurse / _dispatch_async_and_wait_recurse_one, or handed to a waiter by
+   _dispatch_workloop_drain_barrier_waiter; an async_and_wait context pushed on the workloop is run by the workloop's
+   drainer.  Concurrent levels (no owner while readers run) are skipped; a word touched through a
    32-bit half access or carrying bits outside the abstraction is "unknown" until its next full record.
    Hierarchy shape (target index, width, lane or not) comes from the Reset markers of each execution. *)
 EXTENDS Integers, Sequences, FiniteSets, Json, IOUtils, TLC, TLCExt
@@ -40,7 +44,7 @@ Has(r, k) == k \in DOMAIN r
 RECURSIVE SerialChain(_, _)
 SerialChain(q, fuel) ==
     IF q < 0 \/ q \notin DOMAIN shp \/ fuel = 0 THEN {}
-    ELSE (IF shp[q].lane /\ shp[q].w = 1 THEN {q} ELSE {}) \cup SerialChain(shp[q].tq, fuel - 1)
+    ELSE (IF shp[q].w = 1 THEN {q} ELSE {}) \cup SerialChain(shp[q].tq, fuel - 1)
 Known(b) == b \in DOMAIN own /\ own[b] \notin {"?", "-1"}
 
 TReset == /\ l <= Len(Tr) /\ Rec.e = "Reset" /\ Has(Rec, "q") /\ Consume
@@ -56,7 +60,7 @@ TSt == /\ IsSt /\ ~Opaque /\ Rec.op # "giveup" /\ Consume
           \* (L2) the drain lock of an inner lane is taken from the context of its serial target
           (/\ Rec.f = "_dispatch_queue_drain_try_lock" /\ Rec.op = "cmpxchg" /\ Rec.ok = 1
            /\ Rec.new.owner = t /\ Rec.old.owner = "null"
-           /\ b >= 0 /\ b \in DOMAIN shp /\ shp[b].lane /\ shp[b].w = 1 /\ Known(b))
+           /\ b >= 0 /\ b \in DOMAIN shp /\ shp[b].w = 1 /\ Known(b))
           => own[b] = t
        /\ own' = Put(own, Rec.q, Rec.new.owner) /\ UNCHANGED <<shp, who>>
 \* (L1) an item runs under the drain lock of every serial level below (and including) its queue
